@@ -37,8 +37,9 @@ structure MState where
   imm : String → Nat                      -- immediate by letter
   pktAddr : Nat
   params : List (String × Val)            -- pure parameters (sub-routine bodies)
+  stores : List Nat := []                 -- addresses stored to (observation aid: which cells to compare)
 
-instance : Inhabited MState := ⟨⟨fun _ => 0, fun _ => 0, fun _ => false, fun _ => 0, [], fun _ => 0, 0, []⟩⟩
+instance : Inhabited MState := ⟨⟨fun _ => 0, fun _ => 0, fun _ => false, fun _ => 0, [], fun _ => 0, 0, [], []⟩⟩
 
 /-- Uninterpreted plugin macros: a function of the argument values (shared with the C side). -/
 abbrev MacroSem := String → List Val → Option Val
@@ -219,7 +220,7 @@ def execIL (ms : MacroSem) (subs : SubEnv) : Nat → ILEffect → MState → Exc
         let va ← evalPure ms σ [] a
         let vv ← evalPure ms σ [] v
         match va, vv with
-        | .bv _ x, .bv w y => .ok { σ with mem := storeBytes σ.mem x.toNat y.toNat (w / 8) }
+        | .bv _ x, .bv w y => .ok { σ with mem := storeBytes σ.mem x.toNat y.toNat (w / 8), stores := x.toNat :: σ.stores }
         | _, _ => .error (.sort "STOREW")
     | .seqn es => execSeq ms subs fuel es σ
     | .branch c t e => do
